@@ -767,12 +767,23 @@ def lemma_c02_inv():
     return [], items
 
 
+def _not_else_flag(u):
+    # which flag a following else_ negates is the meaning of the written program (C01), not a matter of dependencies
+    from pyvc.contracts import FilteredUnit
+    return FilteredUnit(u, lambda n: "flag-remembered-for-a-following-else" not in n)
+
+
+def builder_block_units():
+    """if_ / else_ in full (C01: the guards are those of the written program)"""
+    return [FunctionUnit(IfContract(1)), FunctionUnit(IfContract(3)), FunctionUnit(ElseContract())]
+
+
 def units():
     # theorem T orders statements that conflict on their DECLARED sets; that the declared sets cover what a
     # statement touches is C08: its functions under contract are functions this property depends on
     from . import c08
     return c08.units() + [FunctionUnit(AddStatement()), FunctionUnit(FreshVarName()), FunctionUnit(NextStatementId()),
-            FunctionUnit(IfContract(1)), FunctionUnit(IfContract(3)), FunctionUnit(ElseContract()),
+            _not_else_flag(FunctionUnit(IfContract(1))), _not_else_flag(FunctionUnit(IfContract(3))), FunctionUnit(ElseContract()),
             LemmaUnit("lemma:C02-inv", lemma_c02_inv),
             LeanUnit("lemma:L-PERM", "lemmas/LPerm.lean", ["run_eq_of_linear_extensions"]),
             LeanUnit("lemma:L-TOPO", "lemmas/LTopo.lean", ["pairwise_of_respects"])] \
